@@ -1,4 +1,337 @@
-import MgProof.C15.HandleLemmas
+import MgProof.C15.HandleSafety
 import MgProof.C15.PipeLemmas
+/-!
+# C15 — property theorems
+
+Statement (properties.jsonl): for every history of connections being accepted, data
+arriving in arbitrary fragmentation, either side closing, contexts being added from other
+threads and the loop exiting, each socket context is announced once, its bytes reach the
+message callback in order without loss or duplication, and it is closed, released and freed
+exactly once when its reference count drops to zero, never used after release and never
+leaked, including contexts still queued at exit. The event-loop pipe delivers every pointer
+written by any thread exactly once, in per-writer order.
+
+Part 1 is about `MgModel.C15.Handle` (model of `socket_evloop_handle.c` with the repaired
+`on_wake`, tied to the real code on the three back-ends by `harness/c15/seq_socket.c`).
+Quantifiers: every registration capacity (`cap`: poll's `hints_max_fd`, `none` for select /
+epoll), every history = every finite list of acts (connect with alloc success or failure,
+send of any bytes, peer close, shutdown, retain, worker release, hand-over, wake, a
+registered context's turn with any read size, exit) in **every order** in which the
+environment may legally issue them (`Legal`) — in particular every dispatch order of every
+back-end and every interleaving of worker acts with loop acts.
+
+Part 2 is about `MgModel.C15.Pipe` (model of `socket_evloop_pipe.c`, tied to the real
+object code by `harness/c15/conc_pipe.c` under the deterministic scheduler). Quantifiers:
+every number of writers, every pointer sequence per writer, every FIFO capacity, every
+script of partial-write and partial-read sizes, every schedule of every length.
+-/
 namespace MgProof.C15
+open MgModel.C15 MgModel.Conc
+
+/-! ## Part 1 — socket contexts -/
+
+/-- **Never used after release, no wild access** (clause "never used after release").
+Every legal history, of any length, from the initial state (listener registered) runs to
+the end without the model ever reading or writing a freed or never-allocated context
+(`Err.uaf` / `Err.wild` are the only errors of the model), and ends in a state satisfying
+the ownership invariant `Inv`. All `cap`, all histories. -/
+theorem history_safe (cap : Option Nat) (as : List Act) (h : LegalRun (init cap true) as) :
+    ∃ s, run (init cap true) as = .ok s ∧ Inv s :=
+  run_inv as (init_inv cap) h
+
+/-- one more legal act from any state reached so far: it cannot fail either -/
+theorem next_act_safe {s : St} (hi : Inv s) (a : Act) (hl : Legal s a) : ∃ s', apply s a = .ok s' ∧ Inv s' :=
+  apply_inv hi a hl
+
+/-- **Announced once** (clause "each socket context is announced once"). In every state
+reached by a legal history: `cb_conn` and `cb_add_ctx` are each called at most once per
+context and never both; an accepted context that was registered got exactly one `cb_conn`
+(none if registration failed at accept time — it was never visible to the user); a handed-
+over context that is registered got exactly one `cb_add_ctx`, one that is still queued none. -/
+theorem announced_once {s : St} (hi : Inv s) (c : Nat) :
+    (s.ctx c).nConn ≤ 1 ∧ (s.ctx c).nAdd ≤ 1 ∧ (s.ctx c).nConn + (s.ctx c).nAdd ≤ 1 ∧
+    ((s.ctx c).origin = .accepted → (s.ctx c).mem ≠ .none →
+        (s.ctx c).nConn = if (s.ctx c).regFailed then 0 else 1) ∧
+    ((s.ctx c).origin = .handed → (c ∈ s.reg → (s.ctx c).nAdd = 1) ∧ (c ∈ s.queue → (s.ctx c).nAdd = 0)) := by
+  have g := hi.good c
+  obtain ⟨h1, h2, _⟩ := g.once
+  refine ⟨h1, h2, ?_, ?_, ?_⟩
+  · cases ho : (s.ctx c).origin
+    · have := g.none_ (g.oNone ho); omega
+    · have := g.oLis ho; omega
+    · have := g.oAcc ho; omega
+    · have := g.oHand ho; omega
+  · intro ho hm; exact (g.oAcc ho).2.2.1 hm
+  · intro ho
+    have := g.oHand ho
+    exact ⟨fun h => this.2.2.2.2 (by simp [h]), fun h => this.2.2.2.1 (by simp [h])⟩
+
+/-- **The reference count is the number of owners.** For a live context the count equals
+(1 if the loop has it registered) + (1 if it sits in the hand-over queue) + (retains held by
+worker threads), and it is at least 1. -/
+theorem refcount_counts_owners {s : St} (hi : Inv s) (c : Nat) (hl : (s.ctx c).mem = .live) :
+    (s.ctx c).ref = (if c ∈ s.reg then 1 else 0) + (if c ∈ s.queue then 1 else 0) + (s.ctx c).held ∧
+    1 ≤ (s.ctx c).ref := by
+  have := (hi.good c).live_ hl
+  refine ⟨?_, this.2.1⟩
+  have h := this.1
+  simp only [b2n, decide_eq_true_eq] at h
+  exact h
+
+/-- **Closed, released and freed exactly once, exactly when the count drops to zero**
+(clause "closed, released and freed exactly once when its reference count drops to zero").
+In every reachable state, for every context: the close callback ran at most once; while the
+context is live (count ≥ 1) its descriptor has not been closed, `cb_release` has not run and
+it has not been freed; once it is freed the count is zero, no owner is left (not registered,
+not queued, no worker retain), and the descriptor was closed exactly once, `cb_release`
+(or the releasing worker's own release) ran exactly once and `cb_free` exactly once. (The
+accept-time registration-failure path frees a context nobody ever saw: freed and closed
+once, no release callback, count untouched.) Since freed contexts are never touched again
+(`history_safe`), none of these counters can change afterwards. -/
+theorem closed_released_freed_exactly_once {s : St} (hi : Inv s) (c : Nat) :
+    (s.ctx c).nCls ≤ 1 ∧
+    ((s.ctx c).mem = .live → 1 ≤ (s.ctx c).ref ∧ (s.ctx c).fdOpen = true ∧ (s.ctx c).nFdc = 0 ∧
+        (s.ctx c).nRel = 0 ∧ (s.ctx c).nFree = 0) ∧
+    ((s.ctx c).mem = .freed → (s.ctx c).held = 0 ∧ c ∉ s.reg ∧ c ∉ s.queue ∧ (s.ctx c).fdOpen = false ∧
+        (s.ctx c).nFdc = 1 ∧ (s.ctx c).nFree = 1 ∧
+        ((s.ctx c).regFailed = false → (s.ctx c).ref = 0 ∧ (s.ctx c).nRel = 1) ∧
+        ((s.ctx c).regFailed = true → (s.ctx c).nRel = 0 ∧ (s.ctx c).nConn = 0 ∧ (s.ctx c).nCls = 0)) := by
+  have g := hi.good c
+  refine ⟨g.once.2.2, ?_, ?_⟩
+  · intro hl
+    have := g.live_ hl
+    exact ⟨this.2.1, this.2.2.1, this.2.2.2.1, this.2.2.2.2.2.1, this.2.2.2.2.1⟩
+  · intro hf
+    have := g.freed_ hf
+    refine ⟨this.2.1, by simpa using this.2.2.1, by simpa using this.2.2.2.1, this.2.2.2.2.1,
+      this.2.2.2.2.2.1, this.2.2.2.2.2.2.1, ?_, ?_⟩
+    · intro hr
+      have href := this.1
+      have hrel := this.2.2.2.2.2.2.2
+      rw [hr] at href hrel
+      exact ⟨by simpa using href, by simpa using hrel⟩
+    · intro hr
+      have h2 := g.rf hr
+      have hrel := this.2.2.2.2.2.2.2
+      rw [hr] at hrel
+      exact ⟨by simpa using hrel, h2.2, h2.1⟩
+
+/-- **Never leaked, including contexts still queued at exit** (clause "never leaked,
+including contexts still queued at exit"). After the loop has exited (in whatever state:
+contexts registered, contexts still in the hand-over queue, connections not yet accepted)
+and the worker threads have dropped the references they held, no context is live: every
+context that was ever allocated has been closed, released and freed. -/
+theorem no_leak_after_exit {s : St} (hi : Inv s) (hex : s.exited = true)
+    (hw : ∀ c, (s.ctx c).held = 0) (c : Nat) :
+    (s.ctx c).mem ≠ .live ∧ ((s.ctx c).mem ≠ .none → (s.ctx c).mem = .freed ∧ (s.ctx c).nFree = 1 ∧ (s.ctx c).nFdc = 1) := by
+  have g := hi.good c
+  obtain ⟨hr, hq⟩ := hi.exited hex
+  have hnl : (s.ctx c).mem ≠ .live := by
+    intro hl
+    have := g.live_ hl
+    rw [hr, hq, hw c] at this
+    simp [b2n] at this
+    omega
+  refine ⟨hnl, ?_⟩
+  intro hn
+  cases hm : (s.ctx c).mem
+  · exact absurd hm hn
+  · exact absurd hm hnl
+  · have := g.freed_ hm
+    exact ⟨rfl, this.2.2.2.2.2.2.1, this.2.2.2.2.2.1⟩
+
+/-- the loop itself leaves nothing behind at exit: right after `exit` the registration list
+and the hand-over queue are empty, so every context that is still live is owned by a worker -/
+theorem exit_releases_everything {s : St} (hi : Inv s) (hex : s.exited = true) (c : Nat)
+    (hl : (s.ctx c).mem = .live) : (s.ctx c).ref = (s.ctx c).held ∧ 0 < (s.ctx c).held := by
+  have := (hi.good c).live_ hl
+  obtain ⟨hr, hq⟩ := hi.exited hex
+  rw [hr, hq] at this
+  simp [b2n] at this
+  omega
+
+/-- **Bytes in order, no duplication** (clause "its bytes reach the message callback in
+order without ... duplication"). In every reachable state, what `cb_msg` has been given so
+far, followed by what is still unread in the kernel, is exactly what the peer has sent, in
+order — for every fragmentation by the sender and every read size of the callback. -/
+theorem bytes_in_order {s : St} (hi : Inv s) (c : Nat) :
+    (s.ctx c).got ++ (s.ctx c).inq = (s.ctx c).sent :=
+  (hi.good c).bytes
+
+/-- **No loss** (clause "without loss"): when a registered client context gets its turn
+and the message callback reads with a buffer of at least one byte, every byte the peer has
+sent so far has been handed to `cb_msg` when the turn is over — also when the turn ends with
+the close callback (peer closed after sending: the data is delivered before `cb_close`). -/
+theorem no_loss_at_turn {s s' : St} (hi : Inv s) {c k : Nat} (hc : c ∈ s.reg)
+    (hnl : (s.ctx c).isListener = false) (hk : 1 ≤ k) (h : dispatchCtx s c k = .ok s') :
+    (s'.ctx c).inq = [] ∧ (s'.ctx c).got = (s.ctx c).sent ∧ (s'.ctx c).sent = (s.ctx c).sent := by
+  have hl := live_of_reg hi hc
+  have hb := (hi.good c).bytes
+  rw [dispatchCtx_eq] at h
+  simp only [live_ok hl, bind, Except.bind] at h
+  unfold dispatchHead at h
+  simp only [hnl, Bool.false_eq_true, if_false] at h
+  by_cases hr : (!(s.ctx c).inq.isEmpty || (s.ctx c).eof) = true
+  · rw [if_pos hr, onReadClient_spec s c k hl] at h
+    simp only [] at h
+    have hi1 : Inv (s.set c (readRec (s.ctx c) k)) := inv_set hi c _ hl (good_read (hi.good c) k)
+    obtain ⟨h1, h2, h3⟩ := dispatchTail_bytes hi1 (by simpa using hc) h
+    rw [set_ctx] at h1 h2 h3
+    have he : (readRec (s.ctx c) k).inq = [] := drain_empties k hk _ _ _ (Nat.le_refl _)
+    have ha := drain_append k (s.ctx c).inq.length (s.ctx c).inq (s.ctx c).got
+    refine ⟨h1.trans he, ?_, h3⟩
+    rw [h2]
+    show (drain k (s.ctx c).inq.length (s.ctx c).inq (s.ctx c).got).1 = _
+    have he' : (drain k (s.ctx c).inq.length (s.ctx c).inq (s.ctx c).got).2 = [] := he
+    rw [he', List.append_nil] at ha
+    rw [ha, hb]
+  · rw [if_neg hr] at h
+    simp only [pure, Except.pure] at h
+    obtain ⟨h1, h2, h3⟩ := dispatchTail_bytes hi hc h
+    have he : (s.ctx c).inq = [] := by
+      simp only [Bool.or_eq_true, Bool.not_eq_true', not_or] at hr
+      have := hr.1
+      simpa using this
+    refine ⟨h1.trans he, ?_, h3⟩
+    rw [h2, ← hb, he, List.append_nil]
+
+/-- **Accept-time failures are clean** (quantifier "accept-time allocation or registration
+failure"): one turn of the accept loop on a connection whose `cb_alloc` fails closes the
+accepted descriptor exactly once and creates no context; the ownership invariant (which
+covers the registration-failure path: freed once, closed once, never announced) is kept. -/
+theorem alloc_failure_closes_descriptor {s : St} (hi : Inv s) (hex : s.exited = false) {c : Nat}
+    {rest : List (Nat × Bool)} (hb : s.backlog = (c, false) :: rest) :
+    ∃ s', acceptOne s = .ok (s', false) ∧ Inv s' ∧ (s'.ctx c).mem = .none ∧ (s'.ctx c).nFdc = 1 ∧
+      (s'.ctx c).fdOpen = false := by
+  obtain ⟨s', b, h, hi', _, _, _⟩ := acceptOne_inv hi hex
+  obtain ⟨hm, hfd, h0, _⟩ := hi.backlog (c, false) (by simp [hb])
+  have hfd' : ((({ s with backlog := rest } : MgModel.C15.St)).ctx c).fdOpen = true := hfd
+  have he : acceptOne s = .ok (({ s with backlog := rest } : MgModel.C15.St).set c
+      { s.ctx c with fdOpen := false, nFdc := (s.ctx c).nFdc + 1 }, false) := by
+    rw [acceptOne_eq]
+    simp only [hb, Bool.not_false, if_true]
+    rw [closeFd_spec _ c hfd']
+  rw [he] at h
+  injection h with h
+  injection h with h1 h2
+  subst h1
+  refine ⟨_, he, hi', ?_, ?_, ?_⟩
+  · rw [set_ctx]; exact hm
+  · rw [set_ctx]; show (s.ctx c).nFdc + 1 = 1; rw [h0]
+  · rw [set_ctx]
+
+/-! ### the defect of the code as found, and its repair -/
+
+/-- the history of the defect: poll back-end with room for the listener only; another thread
+hands a connected context over; the loop wakes up; the loop exits -/
+def leakHistory : List Act := [.handOver, .wake, .exit]
+
+def leakedAt (r : Except Err St) (c : Nat) : Bool :=
+  match r with
+  | .ok s => s.exited && (s.ctx c).mem == .live && (s.ctx c).held == 0 && (s.ctx c).nAdd == 1 &&
+             (s.ctx c).nFree == 0 && (s.ctx c).nFdc == 0 && (s.ctx c).nRel == 0
+  | .error _ => false
+
+/-- **The property is false for `on_wake` as found** (`fixed = false`: the result of
+`muggle_evloop_add_ctx` is ignored): after this legal history the handed-over context got
+`cb_add_ctx`, is live, has no owner (not registered, not queued, no worker retain) and was
+never closed, released or freed — it is leaked. Replayed on the real code by
+`corpus/C15/on-wake-add-failure.ops`. -/
+theorem unfixed_on_wake_leaks : leakedAt (run (init (some 1) false) leakHistory) 1 = true := by decide
+
+/-- the same history on the repaired `on_wake`: the context is released, closed and freed
+exactly once and `cb_add_ctx` is not called for a context that was not added -/
+theorem fixed_on_wake_releases :
+    (match run (init (some 1) true) leakHistory with
+     | .ok s => (s.ctx 1).mem == .freed && (s.ctx 1).nFree == 1 && (s.ctx 1).nFdc == 1 &&
+                (s.ctx 1).nRel == 1 && (s.ctx 1).nAdd == 0
+     | .error _ => false) = true := by decide
+
+/-- non-vacuity: a concrete legal history with an accepted connection that sends, is retained
+by a worker, closed by its peer, released by the worker, a hand-over, and the exit; it runs
+without error and ends with every context freed -/
+example :
+    (match run (init (some 3) true)
+        [.connect true, .dispatch 0 4, .send 1 [1, 2, 3], .dispatch 1 2, .retain 1, .peerClose 1,
+         .dispatch 1 2, .workerRelease 1, .handOver, .wake, .connect false, .dispatch 0 1, .exit] with
+     | .ok s => (s.ctx 1).mem == .freed && (s.ctx 1).got == [1, 2, 3] && (s.ctx 1).nCls == 1 &&
+                (s.ctx 2).mem == .freed && (s.ctx 2).nAdd == 1 && (s.ctx 3).mem == .none &&
+                (s.ctx 3).nFdc == 1 && (s.ctx 0).mem == .freed && s.exited
+     | .error _ => false) = true := by decide
+
+example : Legal (init none true) (.dispatch 0 1) := ⟨rfl, by simp [init]⟩
+
+/-! ## Part 2 — the event-loop pipe -/
+
+namespace Pipe
+open MgModel.C15.Pipe
+
+/-- **Mutual exclusion of the writers**: in every reachable state at most one writer is
+between a successful `test_and_set` and the `clear` of the spin lock, and exactly then the
+lock word is set. All schedules. -/
+theorem writers_exclude (c : Conf) (s : MgModel.C15.Pipe.St) (hr : Reach step (mkInit c) s) (w w' : Nat)
+    (h : inCs (s.wpc w) = true) (h' : inCs (s.wpc w') = true) : w = w' ∧ s.lock = 1 := by
+  have hi := reach_pinv c s hr
+  have e1 := (hi.cs w).mp h
+  have e2 := (hi.cs w').mp h'
+  rw [e1] at e2
+  injection e2 with e2
+  exact ⟨e2, hi.lockHolder.mpr (by simp [e1])⟩
+
+/-- **Every pointer read is a pointer written, whole, in commit order, never twice**
+(clause "delivers every pointer written ... exactly once"). In every reachable state — every
+schedule, every FIFO capacity, every split of the byte stream into partial writes and
+partial reads — the sequence of 8-byte values returned by `pipe_read` so far is a prefix of
+the sequence of pointers in the order in which their writers held the lock (`committed` =
+completed writes followed by the write in progress): no value is torn or assembled from two
+writes, none is duplicated, none is skipped. -/
+theorem reads_are_committed_writes (c : Conf) (s : MgModel.C15.Pipe.St) (hr : Reach step (mkInit c) s) :
+    s.delivered = ((committed s).map msgBytes).take s.delivered.length :=
+  delivered_prefix (reach_pinv c s hr)
+
+/-- **Per-writer order, each pointer once** (clause "in per-writer order"): in every
+reachable state, for every writer, the pointers it has committed so far (in commit order)
+followed by the pointers it still has to write are exactly the sequence it was given. -/
+theorem per_writer_order (c : Conf) (s : MgModel.C15.Pipe.St) (hr : Reach step (mkInit c) s) (w : Nat) :
+    proj s.doneLog w ++ s.todo w = c.progs.getD w [] := by
+  have h := (reach_pinv c s hr).order w
+  rw [(reach_const c s hr).1] at h
+  exact h
+
+/-- **Nothing is lost**: in every reachable state in which all writers have returned and the
+reader has emptied the pipe, the values read are exactly the committed pointers, in commit
+order, and the commit order restricted to any writer is that writer's whole sequence — the
+read sequence is an interleaving of the writers' sequences with every pointer exactly once. -/
+theorem all_delivered_when_drained (c : Conf) (s : MgModel.C15.Pipe.St) (hr : Reach step (mkInit c) s)
+    (hd : ∀ w, w < s.nw → s.wpc w = .done) (hf : s.fifo = []) (hb : s.buf = []) :
+    s.delivered = (s.doneLog.map Prod.snd).map msgBytes ∧
+    ∀ w, proj s.doneLog w = c.progs.getD w [] := by
+  have hi := reach_pinv c s hr
+  refine ⟨delivered_complete hi hd hf hb, ?_⟩
+  intro w
+  have h := per_writer_order c s hr w
+  have ht : s.todo w = [] := by
+    by_cases hw : w < s.nw
+    · exact hi.fin w (hd w hw)
+    · exact hi.fin w (hi.outside w (Nat.le_of_not_lt hw))
+  rw [ht, List.append_nil] at h
+  exact h
+
+/-- the same for the end of any schedule -/
+theorem after_any_schedule (c : Conf) (sched : List Tok) :
+    let s := (runSched step (mkInit c) sched).1
+    s.delivered = ((committed s).map msgBytes).take s.delivered.length ∧
+    ∀ w, proj s.doneLog w ++ s.todo w = c.progs.getD w [] := by
+  have hr := reach_runSched step (mkInit c) (mkInit c) Reach.init sched
+  exact ⟨reads_are_committed_writes c _ hr, per_writer_order c _ hr⟩
+
+/-- non-vacuity: two writers, capacity 5, partial writes of ≤ 3 and partial reads of ≤ 2
+bytes; under this schedule the reader has assembled pointer 1 from four partial reads while
+writer 0 already holds the lock again -/
+example :
+    let s := (runSched step (mkInit { cap := 5, wchunks := [3], rchunks := [2], progs := [[1, 2], [3]] })
+      ([0, 0, 0, 1, 0, 2, 2, 0, 2, 2, 0, 0, 2].map fun t => { tid := t })).1
+    s.delivered = [msgBytes 1] ∧ s.doneLog = [(0, 1)] ∧ s.wpc 1 = .yld := by decide
+
+end Pipe
 end MgProof.C15
